@@ -2,6 +2,11 @@
 
 package sim
 
+import (
+	"fmt"
+	"strings"
+)
+
 func (m *MonC13) snapshot(w *World) {
 	m.preQueries, m.preLocked = nil, nil
 	if !w.started || w.Failed != "" || w.Deadlock != "" {
@@ -12,6 +17,24 @@ func (m *MonC13) snapshot(w *World) {
 	m.preRaw = map[string]map[string]bool{}
 	m.preGroup = map[string]map[string]int{}
 	m.preSubs = liveSubs(w)
+	m.preInSync = map[string]bool{}
+	for _, c := range w.Clients {
+		for _, rid := range c.Ref.HeldRIDs() {
+			if !strings.Contains(rid, "?") {
+				continue
+			}
+			r := c.Ref.Held[rid]
+			typ, em, ec, ok := w.expectedFor(c, rid)
+			if !ok || typ != r.Type {
+				continue
+			}
+			if typ == 'm' {
+				m.preInSync[fmt.Sprintf("%d|%s", c.Idx, rid)] = jsonOf(em) == jsonOf(r.Model) || (len(em) == 0 && len(r.Model) == 0)
+			} else {
+				m.preInSync[fmt.Sprintf("%d|%s", c.Idx, rid)] = jsonOf(ec) == jsonOf(r.Coll) || (len(ec) == 0 && len(r.Coll) == 0)
+			}
+		}
+	}
 	for _, e := range w.CacheSnapshot() {
 		raw := map[string]bool{}
 		group := map[string]int{}
@@ -81,4 +104,87 @@ func (m *MonC13) heldThroughout(w *World, name, query string) bool {
 		}
 	}
 	return false
+}
+
+// queryAnswerApplied: a query request answered with events (or a full model or
+// collection) for a query resource that was loaded and not being re-fetched
+// before the step: at the end of the step every client that holds a resource id
+// of that normalised query, and is not holding events back for it, has the
+// state the answer announced - not only after some later reset.
+func (m *MonC13) queryAnswerApplied(w *World, step int, op Op) {
+	name := w.qevSubjects[op.S]
+	if name == "" || !m.preRaw[name][op.Q] || w.Failed != "" || w.Deadlock != "" {
+		return
+	}
+	answered := false
+	for _, e := range w.Log() {
+		if e.Step == step && e.Kind == "mq_complete" && e.Subject == op.S && e.Query == op.Q && e.Err == "" {
+			answered = true
+		}
+	}
+	if !answered {
+		return
+	}
+	d := w.Svc.defFor(name, w.CIDs())
+	if d == nil {
+		return
+	}
+	queueing := map[string]bool{} // cid|rid
+	for _, vc := range w.ConnSnapshot() {
+		for _, s := range vc.Subs {
+			if s.QueueFlag != 0 || s.State != 5 {
+				queueing[vc.CID+"|"+s.RID] = true
+			}
+		}
+	}
+	for _, c := range w.Clients {
+		if !c.Dialed || c.EOF || c.Closed || c.CID == "" {
+			continue
+		}
+		for _, rid := range c.Ref.HeldRIDs() {
+			n, q := splitRID(strings.Replace(rid, "{cid}", c.CID, -1))
+			if n != name {
+				continue
+			}
+			norm, ok := d.Norm(q)
+			if !ok || norm != op.Q {
+				continue
+			}
+			r := c.Ref.Held[rid]
+			full := n
+			if q != "" {
+				full += "?" + q
+			}
+			if r.Type == 'e' || r.Deleted || queueing[c.CID+"|"+full] {
+				continue
+			}
+			// only a client that was in step with the service before the answer: a
+			// copy that is stale for another reason (a failed re-fetch) is not put
+			// right by this answer's events
+			if !m.preInSync[fmt.Sprintf("%d|%s", c.Idx, rid)] {
+				m.class("query_answer_for_stale_copy_skipped")
+				continue
+			}
+			typ, em, ec, ok := w.expectedFor(c, rid)
+			if !ok || typ != r.Type {
+				continue
+			}
+			m.class("query_answer_application_checked")
+			same := false
+			if typ == 'm' {
+				same = jsonOf(em) == jsonOf(r.Model) || (len(em) == 0 && len(r.Model) == 0)
+			} else {
+				same = jsonOf(ec) == jsonOf(r.Coll) || (len(ec) == 0 && len(r.Coll) == 0)
+			}
+			if !same {
+				got, exp := jsonOf(r.Model), jsonOf(em)
+				if typ == 'c' {
+					got, exp = jsonOf(r.Coll), jsonOf(ec)
+				}
+				m.viols = append(m.viols, Violation{Property: "C13", Class: "diverged", Step: step, Conn: c.Idx, RID: rid, T: w.now(),
+					Message: fmt.Sprintf("c%d: the query request for %s?%s was answered in this step, but at its end the client's copy of %s is %s, the answer announced %s", c.Idx, name, op.Q, rid, got, exp)})
+				return
+			}
+		}
+	}
 }
